@@ -185,12 +185,13 @@ func (env *Env) mcall(e *Expr) SV {
 		key += "$" + a.T.Key()
 	}
 	rt := callee.Signature.Results().At(0).Type()
-	if r, ok := env.st.ghost[key]; ok {
-		return SV{T: r, Ty: rt}
+	if m, ok := x.pureMemo[key]; ok && !wantPtr {
+		env.st.add(m.facts...)
+		return SV{T: m.r, Ty: rt}
 	}
 	r := x.freshVar("pure_"+callee.Name(), sortOfStatic(rt))
-	env.st.ghost[key] = r
-	env.st.add(rangeFacts(r, rt)...)
+	var facts []*Term
+	facts = append(facts, rangeFacts(r, rt)...)
 	cenv := x.callEnv(env.st, env.st, callee, names, tys, args)
 	cenv.binds["result"] = specBinding{Val{T: r}, rt}
 	cenv.binds["result0"] = specBinding{Val{T: r}, rt}
@@ -199,9 +200,19 @@ func (env *Env) mcall(e *Expr) SV {
 		if cenv.err != nil {
 			return env.fail("in contract of %s: %v", relName(callee), cenv.err)
 		}
-		env.st.add(t.T)
+		facts = append(facts, t.T)
 	}
+	env.st.add(facts...)
+	if x.pureMemo == nil {
+		x.pureMemo = map[string]pureMemo{}
+	}
+	x.pureMemo[key] = pureMemo{r, facts}
 	return SV{T: r, Ty: rt}
+}
+
+type pureMemo struct {
+	r     *Term
+	facts []*Term
 }
 
 func describeContract(ct *Contract) string {
